@@ -9,6 +9,9 @@ import Flipdot.Model.Page
 import Flipdot.Model.VSign
 import Flipdot.Model.Controller
 import Flipdot.Model.Compose
+import Flipdot.Model.Io
+import Flipdot.Model.Serial
+import Flipdot.Model.Pipe
 open Flipdot
 
 namespace Drv
@@ -229,6 +232,145 @@ def pageOps (p : Page) (ops : List String) : String := Id.run do
     | _ => return "bad-op"
   return String.intercalate " " (out.push s!"{p.w} {p.h} {toHex p.bytes}").toList
 
+
+def parseREvents (toks : List String) : Option (List REvent) := do
+  let parts ← toks.mapM fun t =>
+    if t == "i" then some [REvent.interrupted]
+    else if t == "e" then some [REvent.error]
+    else if t == "z" then some [REvent.eof]
+    else match t.splitOn ":" with
+      | ["d", hx] => (parseHex hx).map (·.map REvent.byte)
+      | _ => none
+  pure parts.flatten
+
+def parseWEvents (toks : List String) : Option (List WEvent) :=
+  toks.mapM fun t =>
+    if t == "i" then some WEvent.interrupted
+    else if t == "e" then some WEvent.error
+    else match t.splitOn ":" with
+      | ["a", n] => n.toNat?.map WEvent.accept
+      | _ => none
+
+def showIo : IoResult Frame → String
+  | .ok f => "ok " ++ showFrame f
+  | .frameErr e => showFrameErr e
+  | .ioErr => "err io"
+
+def ioReads (n : Nat) (evs : List REvent) : String := Id.run do
+  let mut evs := evs
+  let mut out : Array String := #[]
+  for _ in [0:n] do
+    let (r, rest) := frameRead evs
+    evs := rest
+    out := out.push (showIo r)
+  return String.intercalate " ; " out.toList ++ " | rest=" ++ toHex (remainingBytes evs)
+
+def splitBar (toks : List String) : List (List String) :=
+  toks.foldr (fun t acc => if t == "|" then [] :: acc else match acc with
+    | [] => [[t]]
+    | g :: gs => (t :: g) :: gs) [[]]
+
+def showBusResult : BusResult → String
+  | .ok none => "ok none"
+  | .ok (some m) => "ok " ++ showMsg m
+  | .err => "err"
+
+def showPortEvents (timed : Bool) (evs : List PortEvent) : String :=
+  String.intercalate " " (evs.filterMap fun e => match e with
+    | .wrote bs ok => some s!"W:{toHex bs}:{if ok then 1 else 0}"
+    | .sleep ms => if timed then some s!"S:{ms}" else none
+    | .readLine => some "R")
+
+def serialCase (timed : Bool) (m : Msg) (rd : List REvent) (wr : List WEvent) : String :=
+  let (evs, res, p) := serialStep m ⟨rd, wr⟩
+  showPortEvents timed evs ++ " => " ++ showBusResult res ++ " rest=" ++ toHex (remainingBytes p.rd)
+
+def showOdk : OdkResult → String
+  | .ok => "ok"
+  | .comm => "comm"
+  | .bus => "bus"
+
+def odkCase (bus : List VSign) (prior : List Msg) (rd : List REvent) (wr : List WEvent) (n : Nat) : String := Id.run do
+  let mut b := bus
+  for m in prior do
+    match busStep b m with
+    | .error _ => return "PANIC"
+    | .ok (b', _) => b := b'
+  let mut port : Port := ⟨rd, wr⟩
+  let mut out : Array String := #[]
+  for _ in [0:n] do
+    match odkStep b port with
+    | .error _ => return "PANIC"
+    | .ok (res, written, b', p') =>
+      b := b'
+      port := p'
+      out := out.push s!"{showOdk res} w={toHex written}"
+  return String.intercalate " ; " out.toList ++ " | " ++ String.intercalate ";" (b.map showSign) ++
+    " | rest=" ++ toHex (remainingBytes port.rd)
+
+def bauds : List Baud := [.b110, .b300, .b600, .b1200, .b2400, .b4800, .b9600, .b19200, .b38400, .b57600, .b115200]
+def charSizes : List CharSize := [.bits5, .bits6, .bits7, .bits8]
+def parities : List Parity := [.none, .odd, .even]
+def stops : List StopBits := [.stop1, .stop2]
+def flows : List FlowControl := [.none, .software, .hardware]
+
+def parseBaud (s : String) : Option Baud :=
+  if s.startsWith "o" then (s.drop 1).toString.toNat?.map Baud.other else do bauds[← s.toNat?]?
+
+def showBaud (b : Baud) : String :=
+  match b with
+  | .other n => s!"o{n}"
+  | b => toString ((bauds.findIdx? (· == b)).getD 99)
+
+def showSettings (s : PortSettings) : String :=
+  s!"{showBaud s.baud},{(charSizes.findIdx? (· == s.charSize)).getD 99},{(parities.findIdx? (· == s.parity)).getD 99},{(stops.findIdx? (· == s.stopBits)).getD 99},{(flows.findIdx? (· == s.flow)).getD 99}"
+
+def parseSettings (s : String) : Option PortSettings :=
+  match s.splitOn "," with
+  | [b, c, p, st, f] => do
+    pure ⟨← parseBaud b, ← charSizes[← c.toNat?]?, ← parities[← p.toNat?]?, ← stops[← st.toNat?]?, ← flows[← f.toNat?]?⟩
+  | _ => none
+
+def parseFail (s : String) : Option FailAt :=
+  if s == "never" then some .never else if s == "read" then some .readSettings
+  else if s == "baud" then some .setBaud else if s == "write" then some .writeSettings
+  else if s == "timeout" then some .setTimeout else none
+
+def portCase (kind : String) (prior : PortSettings) (fail : FailAt) : Option String := do
+  let d : Device := ⟨prior, none⟩
+  let (ok, d') ←
+    if kind == "serial" then some (serialTryNew d fail)
+    else if kind == "odk" then some (odkTryNew d fail)
+    else match kind.splitOn ":" with
+      | ["cfg", ms] => do pure (configurePort d (← ms.toNat?) fail)
+      | _ => none
+  let t := match d'.timeout with | some ms => toString ms | none => "-"
+  pure s!"{if ok then "ok" else "err"} {showSettings d'.settings} {t}"
+
+def e2eSerial (signs : String) (rest : List String) : Option String := do
+  let bus ← parseSigns signs
+  let prior := rest.takeWhile (· != "|")
+  let ops := (rest.dropWhile (· != "|")).drop 1
+  let msgs ← prior.mapM parseMsg
+  let mut b := bus
+  for m in msgs do
+    match busStep b m with
+    | .error _ => return "PANIC"
+    | .ok (b', _) => b := b'
+  let mut far : Far := ⟨b, []⟩
+  let mut out : Array String := #[]
+  for o in ops do
+    match o.splitOn "," with
+    | [op, a, t, items] =>
+      let p ← ctrlProg op (← parseType t) (← parseU16 a) (← parseItems items) 8
+      let (r, f') := match p with
+        | .unit p => let (o, f) := p.runVia far; (showOutcome (fun _ => "ok") o, f)
+        | .style p => let (o, f) := p.runVia far; (showOutcome showStyle o, f)
+      far := f'
+      out := out.push r
+    | _ => none
+  pure (String.intercalate " " out.toList ++ " | " ++ String.intercalate ";" (far.bus.map showSign))
+
 def orBad (o : Option String) : String := o.getD "bad-op"
 
 def e2eDirect (signs : String) (rest : List String) : Option String := do
@@ -297,6 +439,26 @@ def handle (line : String) : String :=
       let p ← ctrlProg op (← parseType t) (← parseU16 a) (← parseItems items) (script.length + 1)
       pure (runCtrl p script)
   | "e2e" :: "direct" :: signs :: rest => orBad (e2eDirect signs rest)
+  | "e2e" :: "serial" :: signs :: rest => orBad (e2eSerial signs rest)
+  | "io" :: "reads" :: n :: evs => orBad do pure (ioReads (← n.toNat?) (← parseREvents evs))
+  | "io" :: "write" :: a :: ty :: d :: "|" :: evs => orBad do
+      let f : Frame := ⟨← parseU16 a, ← parseU8 ty, ← parseHex d⟩
+      let (ok, delivered, _) := frameWrite f (← parseWEvents evs)
+      pure s!"{if ok then "ok" else "err"} {toHex delivered}"
+  | "serial" :: m :: "|" :: rest => orBad do
+      match splitBar rest with
+      | [rd, wr] => pure (serialCase false (← parseMsg m) (← parseREvents rd) (← parseWEvents wr))
+      | _ => none
+  | "serialt" :: m :: "|" :: rest => orBad do
+      match splitBar rest with
+      | [rd, wr] => pure (serialCase true (← parseMsg m) (← parseREvents rd) (← parseWEvents wr))
+      | _ => none
+  | "odk" :: n :: signs :: rest => orBad do
+      match splitBar rest with
+      | [prior, rd, wr] =>
+        pure (odkCase (← parseSigns signs) (← prior.mapM parseMsg) (← parseREvents rd) (← parseWEvents wr) (← n.toNat?))
+      | _ => none
+  | ["port", kind, prior, fail] => orBad do portCase kind (← parseSettings prior) (← parseFail fail)
   | _ => "bad-op"
 
 partial def loop (h : IO.FS.Stream) (out : IO.FS.Stream) : IO Unit := do
